@@ -420,7 +420,7 @@ def c12_ensure(R):
     floor=4,
     family="TS",
     desc="copy-on-write bookkeeping: after _copy neither side owns the shared children; merge() takes shared "
-    "children away from every owner; unpickling owns everything; split() hands out branches",
+    "children away from every owner; unpickling owns nothing; split() hands out branches",
 )
 def c12_cow(R):
     tree = R.tree
@@ -463,16 +463,17 @@ def c12_cow(R):
         construct="CompositeFrontend._blank_copy ownership",
     )
     ss = ms["__setstate__"]
-    ok = any(
-        a == "_owned_solvers" and isinstance(v, ast.Call) and v.args and "_solver_list" in ast.unparse(v.args[0])
-        for a, k, n_, v in util.attr_writes(ss, "self")
-    )
+    # pickle keeps object identity: a composite and its branch pickled together come back sharing children, so
+    # ownership cannot be assumed for anything that was restored (the first version of this rule demanded the
+    # opposite - "an unpickled composite owns everything" - and so encoded the defect repaired by 3cf5fe0)
+    owns = [v for a, k, n_, v in util.attr_writes(ss, "self") if a == "_owned_solvers"]
     R.check(
-        ok,
+        bool(owns) and all(isinstance(v, ast.Call) and not v.args and not v.keywords for v in owns),
         m,
         ss,
-        "an unpickled composite owns all of its children",
-        "__setstate__ does not mark the unpickled children as owned",
+        "an unpickled composite owns none of its children",
+        "__setstate__ marks restored children as owned: a composite and its branch pickled in one dump come back sharing "
+        "their children, both own them, and add() on one changes the other's answers (a.add(x < 2) made b unsatisfiable)",
         construct="CompositeFrontend.__setstate__ ownership",
     )
     mg = ms["merge"]
